@@ -72,6 +72,18 @@ MaxLiqEvent(e) ==
     /\ Chk("C08", "maxliq_largest", e.maxA \prec CostA(e, e.L ++ 1) \/ e.maxB \prec CostB(e, e.L ++ 1))
 
 -----------------------------------------------------------------------------
+(* C12: memory-mapped views vs the Anchor serializers (byte fidelity is observed by the harness; the
+   specification states it), and the usable-tick lookup of the Pinocchio tick arrays *)
+ViewEvent(e) ==
+  /\ Chk("C12", "getters_read_anchor_bytes", e.mismatch = <<>>)
+  /\ Chk("C12", "setters_write_anchor_bytes", e.setterSame)
+UsableEvent(e) ==
+  Chk("C12", "usable_tick_lookup", \A i \in DOMAIN e.q :
+        LET t == e.q[i][1] r == e.q[i][2]
+            usable == t >= e.start /\ t < e.start + 88 * e.spacing /\ (t - e.start) % e.spacing = 0 /\ t >= MinTick /\ t <= MaxTick
+        IN r = (IF usable THEN (t - e.start) \div e.spacing ELSE -1))
+
+-----------------------------------------------------------------------------
 Init == l = 1 /\ TLCSet(7, <<"none", "none">>) /\ TLCSet(8, "none")
 Next ==
   /\ l <= Len(Rec)
@@ -82,6 +94,8 @@ Next ==
        [] e.k = "pqueries" -> PQueriesEvent(e)
        [] e.k = "deltas" -> DeltasEvent(e)
        [] e.k = "maxliq" -> MaxLiqEvent(e)
+       [] e.k = "view" -> ViewEvent(e)
+       [] e.k = "usable" -> UsableEvent(e)
        [] OTHER -> FALSE
 Spec == Init /\ [][Next]_l
 Accepted ==
